@@ -797,7 +797,10 @@ def patch_threading():
     t._set_sentinel = SimLock
 
     def register_atexit(fn, *a, **kw):
-        RT.sched.cur().proc.thr_atexits.append((fn, a, kw))
+        proc = RT.sched.cur().proc
+        if getattr(proc, "thr_shutting_down", False):
+            raise RuntimeError("can't register atexit after shutdown")      # as CPython's threading._register_atexit
+        proc.thr_atexits.append((fn, a, kw))
     t._register_atexit = register_atexit
     t._time = lambda: RT.sched.now
 
@@ -864,12 +867,17 @@ def thread_shutdown(proc):
     """threading._shutdown of CPython 3.12 for a simulated process: threading
     at-exit callbacks in reverse order, then join the non-daemon threads."""
     s = RT.sched
+    proc.thr_shutting_down = True
+    proc.exit_step = s.steps
     calls, proc.thr_atexits = proc.thr_atexits, []
     for fn, a, kw in reversed(calls):
         fn(*a, **kw)
     me = s.cur()
-    for t in list(proc.tasks):
-        if t is not me and not t.daemon and t.state != sk.DONE:
+    while True:     # threads started meanwhile (e.g. a manager thread started by a user thread) are joined too
+        pending = [t for t in proc.tasks if t is not me and not t.daemon and t.state != sk.DONE]
+        if not pending:
+            break
+        for t in pending:
             s.block_until(lambda t=t: t.state == sk.DONE, None, "thr.shutdown")
 
 
@@ -1000,7 +1008,8 @@ def on_task_start(t):
         sys.settrace(_global_trace)
     if not t.is_py_thread:
         threading._active.pop(t.ident, None)
-        threading._DummyThread()
+        d = threading._DummyThread()
+        d._daemonic = False       # it stands for the process's main thread: threads it starts are not daemonic
 
 
 def on_task_end(t):
